@@ -137,6 +137,28 @@ def check_case(case, ctx):
                           lambda: f"wind(ravel(v), {label}) differs from v for {var['name']}{names} "
                           f"on {kind}: got {back.values.tolist()} expected {want_back.values.tolist()}")
 
+    # ---- (1b) the same data under another variable's name (a derived or renamed array)
+    var_kinds = {v["name"]: v["kind"] for v in spec["vars"]}
+    for var in spec["vars"]:
+        if var["kind"] is None:
+            continue
+        for other_name, other_kind in var_kinds.items():
+            if other_kind == var["kind"]:
+                continue
+            da = ds[var["name"]]
+            alias = da.rename(other_name)
+            what = f"{var['name']} (on {var['kind']}) renamed {other_name!r} (a variable on {other_kind})"
+            with ctx.using("C03.kind_by_dimensions", what):
+                got_kind = conv.get_grid_kind(alias)
+                ctx.check(got_kind == enums[var["kind"]], "C03.kind_by_dimensions",
+                          lambda: f"get_grid_kind({what}) = {got_kind}")
+                flat_a, flat_b = conv.ravel(alias), conv.ravel(da)
+                ctx.check(flat_a.dims == flat_b.dims
+                          and _arrays_identical(flat_a.values, flat_b.values),
+                          "C03.kind_by_dimensions", lambda: f"ravel({what}) differs from ravel of the variable itself")
+            ctx.label("renamed_across_kinds")
+            nontrivial = True
+
     # ---- (2) arbitrary linear data
     for lin in case["linear"]:
         kinds = sorted(shapes)
@@ -156,7 +178,12 @@ def check_case(case, ctx):
         full_shape = [o[1] for o in others]
         full_shape.insert(pos, n_cells)
         data = _coded_array(full_shape, lin["dtype"])
-        d = xarray.DataArray(data, dims=dims)
+        # the array may carry any name, including that of a dataset variable on another grid:
+        # what grid an array is on is decided by its dimensions alone
+        name_pool = [None, None] + sorted(str(v) for v in ds.variables)
+        d = xarray.DataArray(data, dims=dims, name=name_pool[lin.get("alias", 0) % len(name_pool)])
+        if d.name is not None:
+            ctx.label("linear_array_named_like_a_variable")
         how = lin["how"]
         if how == "default" and pos != len(others):
             how = "name"
@@ -252,6 +279,7 @@ def cases(draw):
         "name": st.sampled_from(["index", "cell", "k"]),
         "dtype": st.sampled_from(["f8", "i4", "b1", "M8", "f4"]),
         "how": st.sampled_from(["default", "name", "axis", "axis-"]),
+        "alias": st.integers(0, 40),
     }), min_size=1, max_size=2))
     linear = [dict(l, others=[list(o) for o in l["others"]]) for l in linear]
     return {"spec": spec, "lin_names": lin_names, "linear": linear}
